@@ -64,6 +64,16 @@ DESC = {
     "C20-a": "`parser = AisParser::new()` after a rejected line",
     "C20-b": "fill counts 6/7 reach `unarmor` (tool panics)",
     "C20-c": "type 5 ship type via `ShipType::from(raw)` (unwrap panics for 100..=255)",
+    "C01-d": "text cut at the first '@' with an index taken from the untrimmed string (slice panics after leading blanks)",
+    "C04-d": "type 24 part B serial number masked to 19 bits",
+    "C10-d": "type 19 speed read as 9 bits (reserved field widened to 9)",
+    "C11-d": "year sentinel tested on the low byte (`year as u8 == 0`): years 256, 2048, ... absent",
+    "C12-d": "aid type 18 mapped to `SafeWater` (collides with 29)",
+    "C13-d": "type 24 model/serial taken as `long_vendor_id.get(3..)` of the already trimmed 7-character field",
+    "C14-d": "`parse_6bit_ascii` clamps the width to the bits present: truncated type 24 part A accepted",
+    "C16-d": "SOTDMA sub-message table: time-outs 6 and 7 transposed",
+    "C18-d": "384-byte reassembly limit under `cfg(not(feature = \"std\"))`: also applies to alloc-only builds",
+    "C20-d": "tool echoes an accepted line with `from_utf8(line).unwrap()` (bytes after the checksum / in a tag block)",
 }
 
 root = os.path.join(os.path.dirname(__file__), "..", "seeded")
